@@ -234,8 +234,6 @@ static void nsq_perturb(int deldec, nsq_case *c, vrng *r)
    /* gains: a chain from the state's previous gain */
    {
       double prev = (double)c->nsq.prev_gain_Q16;
-      int keep = c->nsq.prev_gain_Q16 == c->gains[0] ? 0 : 0;
-      (void)keep;
       for (k = 0; k < nb; k++) {
          double f, g; int m = vbelow(r, 10);
          live_gain[k] = c->gains[k] > 0 ? c->gains[k] : 1;
